@@ -54,6 +54,7 @@ Definition qcase_query (c : qcase) : wquery := mkwq (qc_ctes c) (map RTable (qc_
    hold the same rows as the table it hides) *)
 Definition qcase_ok (c : qcase) : bool :=
   forallb (is_reserved STable) (qc_ctes c)
+  && forallb (generated_view_name (qc_tables c)) (qc_ctes c)      (* the numbering rule of to_sql (161d83f) *)
   && implb (qc_captured c) (match captured_refs (qcase_query c) with [] => false | _ => true end).
 Definition check_qcases (cs : list qcase) : list nat := failing_idx qcase_ok cs.
 
